@@ -453,6 +453,8 @@ int flatcc_builder_custom_reset(flatcc_builder_t *B, int set_defaults, int reduc
     B->level = 0;
     B->limit_level = 0;
     B->ds_offset = 0;
+    /* An abandoned build leaves ds_first at the position of the innermost open frame. */
+    B->ds_first = 0;
     B->ds_limit = 0;
     B->nest_count = 0;
     B->nest_id = 0;
